@@ -195,3 +195,90 @@ func init() {
 			}
 		}})
 }
+
+func init() {
+	register(&Rule{ID: "W.splay", Min: 6, Text: "order-statistic bookkeeping of the splay tree: every function of pkg/splay that re-links a node (stores into a left/right child pointer of an existing node) recomputes weights afterwards — a call of UpdateWeight/updateTreeWeight/InitWeight/Splay/cutOffRight post-dominates (or, for conditional re-links, is reachable from) the store; in the two rotations the former root's weight is recomputed before the pivot's (child before parent), for both of them",
+		Run: func(x *Ctx) {
+			refresh := map[string]bool{"UpdateWeight": true, "updateTreeWeight": true, "InitWeight": true, "Splay": true, "cutOffRight": true, "increaseWeight": true, "Delete": true}
+			n := 0
+			for _, fn := range x.P.FuncsIn("pkg/splay") {
+				if o := fn.Origin(); o != nil && o != fn {
+					continue
+				}
+				var stores []*ssa.Store
+				for _, b := range fn.Blocks {
+					for _, ins := range b.Instrs {
+						st, ok := ins.(*ssa.Store)
+						if !ok {
+							continue
+						}
+						f := prog.FieldVar(st.Addr)
+						if f == nil || !(f.Name() == "left" || f.Name() == "right") {
+							continue
+						}
+						if freshObject(st.Addr.(*ssa.FieldAddr).X) {
+							continue
+						}
+						stores = append(stores, st)
+					}
+				}
+				if len(stores) == 0 || fn.Name() == "unlink" {
+					continue // unlink detaches a node that has just been cut out of the tree by Delete, which recomputes the weights
+				}
+				var refs []ssa.CallInstruction
+				for _, c := range prog.CallsIn(fn) {
+					name := ""
+					if o := prog.CallObj(c); o != nil {
+						name = o.Name()
+					}
+					if refresh[name] {
+						refs = append(refs, c)
+					}
+				}
+				for i, st := range stores {
+					n++
+					ok := false
+					for _, r := range refs {
+						if x.P.PostDominates(r, st) || prog.MayPrecede(st, r) {
+							ok = true
+						}
+					}
+					x.check(ok, fmt.Sprintf("func=%s relink#%d weights-recomputed", prog.FnName(fn), i+1), x.pos(st), "weights are recomputed after the re-link",
+						"a child pointer is re-linked without recomputing subtree weights afterwards: every index lookup through this node is off by the moved subtree's weight")
+				}
+			}
+			for _, name := range []string{"rotateLeft", "rotateRight"} {
+				fn := x.fn("pkg/splay.(*Tree)." + name)
+				if fn == nil {
+					continue
+				}
+				k := "func=" + prog.FnName(fn)
+				pivot := fn.Params[1]
+				var ups []ssa.CallInstruction
+				for _, c := range prog.CallsIn(fn) {
+					if o := prog.CallObj(c); o != nil && o.Name() == "UpdateWeight" {
+						ups = append(ups, c)
+					}
+				}
+				okOrder := false
+				if len(ups) == 2 {
+					first, second := ups[0], ups[1]
+					if prog.Dominates(second, first) {
+						first, second = second, first
+					}
+					a0, a1 := first.Common().Args[len(first.Common().Args)-1], second.Common().Args[len(second.Common().Args)-1]
+					parentOfPivot := func(v ssa.Value) bool {
+						return prog.Reaches(v, func(w ssa.Value) bool {
+							f := prog.LoadedField(w)
+							return f != nil && f.Name() == "parent" && prog.FieldBase(w) != nil && prog.Strip(prog.FieldBase(w)) == ssa.Value(pivot)
+						})
+					}
+					okOrder = parentOfPivot(a0) && prog.Strip(a1) == ssa.Value(pivot)
+				}
+				x.check(okOrder, k+" recompute-old-root-then-pivot", x.fpos(fn), "the demoted node's weight is recomputed before the promoted one's", "after the rotation the weights are not recomputed for the old root first and the pivot second: the pivot's weight is computed from a stale child weight")
+			}
+			if n < 6 {
+				x.C.Vacuous(x.id()+" re-links", n, 6)
+			}
+		}})
+}
